@@ -29,6 +29,65 @@ class UnitOfWork(object):
         self.pending_statements = []
         self.version_objs = {}
 
+    def create_version_session(self, session):
+        """
+        Create the session the version objects are written through. It works
+        on the connection of given session and never begins a savepoint of
+        its own: a savepoint begun below a savepoint of the parent session
+        would be gone, unnoticed, once that one is rolled back.
+        """
+        kwargs = {}
+        if int(sa.__version__.split('.')[0]) >= 2:
+            kwargs['join_transaction_mode'] = 'rollback_only'
+        return sa.orm.session.Session(bind=session.connection(), **kwargs)
+
+    def savepoint(self):
+        """
+        Return the state of this UnitOfWork, to be handed to
+        :func:`rollback_to_savepoint` if a savepoint that begins now is
+        rolled back.
+        """
+        return dict(
+            version_session=self.version_session,
+            version_session_objects=(
+                list(self.version_session)
+                if self.version_session is not None else []
+            ),
+            current_transaction=self.current_transaction,
+            operations=[
+                (key, operation.target, operation.type, operation.processed)
+                for key, operation in self.operations.items()
+            ],
+            pending_statements=list(self.pending_statements),
+            version_objs=dict(self.version_objs),
+        )
+
+    def rollback_to_savepoint(self, state):
+        """
+        Bring this UnitOfWork back to given state (None: the initial state).
+        The rows written through the version session since then are gone
+        from the database; the objects that stand for them are dropped and
+        the others are reloaded when they are used next.
+        """
+        if self.version_session is not None:
+            known = state['version_session_objects'] if state else []
+            for obj in list(self.version_session):
+                if not any(obj is other for other in known):
+                    self.version_session.expunge(obj)
+            self.version_session.expire_all()
+        if state is None:
+            self.reset()
+            return
+        self.version_session = state['version_session']
+        self.current_transaction = state['current_transaction']
+        self.operations = Operations()
+        for key, target, type_, processed in state['operations']:
+            operation = Operation(target, type_)
+            operation.processed = processed
+            self.operations[key] = operation
+        self.pending_statements = state['pending_statements']
+        self.version_objs = state['version_objs']
+
     def is_modified(self, session):
         """
         Return whether or not given session has been modified. Session has been
@@ -64,9 +123,7 @@ class UnitOfWork(object):
             return
 
         if not self.version_session:
-            self.version_session = sa.orm.session.Session(
-                bind=session.connection()
-            )
+            self.version_session = self.create_version_session(session)
 
         if not self.current_transaction:
             self.create_transaction(session)
@@ -112,9 +169,7 @@ class UnitOfWork(object):
             self.create_transaction(session)
 
         if not self.version_session:
-            self.version_session = sa.orm.session.Session(
-                bind=session.connection()
-            )
+            self.version_session = self.create_version_session(session)
 
         self.make_versions(session)
 
@@ -138,9 +193,7 @@ class UnitOfWork(object):
         for key, value in args.items():
             setattr(self.current_transaction, key, value)
         if not self.version_session:
-            self.version_session = sa.orm.session.Session(
-                bind=session.connection()
-            )
+            self.version_session = self.create_version_session(session)
         self.version_session.add(self.current_transaction)
         self.version_session.flush()
         self.version_session.expunge(self.current_transaction)
